@@ -351,18 +351,24 @@ class Consumer(object):
         def _handle_shutdown_commit_success(result):
             """Handle the result of the commit attempted by shutdown"""
             self._shutdown_d, d = None, self._shutdown_d
-            self.stop()
+            if not self._stopping and self._start_d is not None:
+                self.stop()
             self._shuttingdown = False  # Shutdown complete
             d.callback(self._last_processed_offset)
 
         def _handle_shutdown_commit_failure(failure):
             """Handle failure of commit() attempted by shutdown"""
             if failure.check(OperationInProgress):
-                failure.value.deferred.addCallback(_commit_and_stop)
+                # Try again once the commit in progress has completed,
+                # whichever way
+                failure.value.deferred.addBoth(_commit_and_stop)
                 return
 
             self._shutdown_d, d = None, self._shutdown_d
-            self.stop()
+            # stop() may be what is cancelling our commit: it must not be
+            # re-entered
+            if not self._stopping and self._start_d is not None:
+                self.stop()
             self._shuttingdown = False  # Shutdown complete
             d.errback(failure)
 
